@@ -3,7 +3,7 @@
    Quantity.__init__ by the correspondence check of harness/props/c05.py).  Only `exact` here. *)
 From Coq Require Import List QArith ZArith Bool NArith Permutation.
 From VP Require Import Base.Util Base.Dim Base.Val Model.CollectQ Proofs.DimProofs Proofs.CollectQProofs
-  Proofs.CollectQGlobal.
+  Proofs.CollectQGlobal Model.QSign Proofs.QSignProofs.
 Import ListNotations.
 
 (* the scale factor is the arithmetic value of the expression *)
@@ -113,3 +113,27 @@ Theorem C05_dim_is_product : forall e, WF e -> Fin e ->
               (is_any v = true \/ deq d (nominal_dim e)).
 Proof. exact collect_dim_is_product. Qed.
 Print Assumptions C05_dim_is_product.
+
+(* ---- the sign a Quantity claims towards SymPy (Model/QSign.v ~ Quantity._eval_is_positive) ---------------------------
+   SymPy consults the claim while the expression is built (Max(q, 0) -> q, Min(q, 0) -> 0, Abs(q) -> q); "the value of
+   the expression" the user wrote survives only if (a) whoever is claimed positive is a non-negative extended real and
+   the rewrites made on the strength of the claim keep the value, and (b) no positive value -- finite or infinite --
+   is ever denied, negative values are denied. *)
+Theorem C05_sign_claim_sound : forall v, qty_is_positive v = Some true ->
+  (exists q, v = VQ q /\ (0 <= q)%Q) \/ v = VFloat0 \/ v = VPInf.
+Proof. exact sign_claim_sound. Qed.
+Print Assumptions C05_sign_claim_sound.
+
+Theorem C05_sign_claim_rewrites : forall v, qty_is_positive v = Some true -> v <> VFloat0 ->
+  val_eqb (vmax v (VQ 0)) v = true /\ val_eqb (vmin v (VQ 0)) (VQ 0) = true /\ val_eqb (vabs v) v = true.
+Proof. exact sign_claim_rewrites. Qed.
+Print Assumptions C05_sign_claim_rewrites.
+
+Theorem C05_sign_claim_complete :
+  (forall q, (0 < q)%Q -> qty_is_positive (VQ q) = Some true) /\ qty_is_positive VPInf = Some true /\
+  (forall q, (q < 0)%Q -> qty_is_positive (VQ q) = Some false) /\ qty_is_positive VNInf = Some false.
+Proof. exact (conj sign_claim_positive (conj sign_claim_pinf (conj sign_claim_negative (proj1 sign_claim_specials)))). Qed.
+Print Assumptions C05_sign_claim_complete.
+
+Example C05_sign_claim_nonvacuous : qty_is_positive (VQ (3 # 2)) = Some true /\ qty_is_positive (VQ (-(1 # 2))) = Some false.
+Proof. split; reflexivity. Qed.
